@@ -22,7 +22,9 @@ META = dict(
          'differs from the listing order), independent random listing orders of n / pop_sizes / migration_rates, each '
          'unsampled deme listed with 0 or omitted; reference = names p0<p1<p2 listed in sorted order with explicit zeros; '
          'non-trivial = the deme axis (lineage_config.pop_names) of the rendering is not in sorted-name order or differs '
-         'from the reference axis as a permutation. Hash-seed clause: fixed + one seeded configuration, each run under '
+         'from the reference axis as a permutation. Every sixth item adds a two-locus configuration (Kingman, two demes, '
+         'n <= 3, asymmetric migration, distinct sizes, r in {0.5, 1, 4}; totals, cdf and the locus covariance matrix) in two '
+         'renderings - linked lineages migrate through a code path of their own. Hash-seed clause: fixed + one seeded configuration, each run under '
          '4 (quick) / 16 (thorough) PYTHONHASHSEED values',
     trusted_base=['CPython str hashing is controlled by PYTHONHASHSEED', 'IEEE doubles / scipy.linalg.expm'],
     assumptions=['named results are compared at 1e-9 relative (statement) plus an absolute floor of 1e-12 x the natural '
@@ -103,7 +105,32 @@ def build(pg, cfg, r):
     dem = pg.Demography(pop_sizes={p: dict(v) for p, v in kw['pop_sizes'].items()},
                         migration_rates={(a, b): dict(v) for a, b, v in kw['mig']})
     n = pg.LineageConfig(dict(kw['n'])) if r.get('n_as_object') else dict(kw['n'])
+    if cfg.get('loci', 1) == 2:
+        # two loci (Kingman only): linked lineages migrate through a code path of their own (Transition.migrate_linked)
+        return pg.Coalescent(n=n, demography=dem, loci=2, recombination_rate=cfg['rec'], parallelize=False, pbar=False)
     return pg.Coalescent(n=n, model=conv.make_model(pg, cfg['model']), demography=dem, parallelize=False, pbar=False)
+
+
+def make_cfg2(rng):
+    """two loci, two demes, asymmetric migration and distinct sizes, every lineage placement (also all in one deme)"""
+    names = CANON[:2]
+    n = rng.choice([2, 2, 3])
+    vec = rng.choice(gen.splits(n, 2))
+    ne = rng.choice([1, 1, 2])
+    eps = gen.rand_epochs(rng, names, ne, zero_mig_prob=0.0)
+    for k, e in enumerate(eps):
+        e['sizes'] = {names[0]: float(2.0 ** (k - 1)), names[1]: float(3.0 * 2.0 ** -k)}
+        e['mig'] = {(names[0], names[1]): rng.choice([0.25, 0.5, 1.5]), (names[1], names[0]): rng.choice([1.0, 2.0, 3.0])}
+    return dict(n=dict(zip(names, vec)), model=('kingman',), epochs=eps, loci=2, rec=rng.choice([0.5, 1.0, 4.0]))
+
+
+def two_locus_results(coal):
+    th, tbl = coal.tree_height, coal.total_branch_length
+    out = {'th.mean': (_val(lambda: th.mean), 1), 'th.var': (_val(lambda: th.var), 2),
+           'tbl.mean': (_val(lambda: tbl.mean), 1), 'tbl.var': (_val(lambda: tbl.var), 2),
+           'th.cdf(1)': (_val(lambda: th.cdf(1.0)), 0),
+           'th.loci.cov': (_val(lambda: np.asarray(th.loci.cov, dtype=float)), 2)}
+    return out, list(coal.lineage_config.pop_names)
 
 
 # ----------------------------------------------------------------------------------------- named results
@@ -200,7 +227,7 @@ def eval_rendering(pg, cfg, r, sfs=True):
     inv = {v: k for k, v in r['names'].items()}
     with C.LogCapture() as lc:
         coal = build(pg, cfg, r)
-        res, axis = named_results(coal, inv, sfs)
+        res, axis = two_locus_results(coal) if cfg.get('loci', 1) == 2 else named_results(coal, inv, sfs)
     return res, axis, lc.records
 
 
@@ -275,6 +302,12 @@ def one(ctx, item):
     check_cfg(ctx, pg, cfg, rs, sfs=True)
     if rng.random() < 0.5:
         shared_rewards(ctx, pg, cfg, rs[0], rng, item)
+    if isinstance(item, int) and item % 6 == 0:
+        # the two-locus family (own generator, so that the draws above are unchanged)
+        rng2 = random.Random(f'{ctx.seed}-c08-2loci-{item}')
+        cfg2 = make_cfg2(rng2)
+        ctx.count('two-loci')
+        check_cfg(ctx, pg, cfg2, [random_rendering(cfg2, rng2) for _ in range(2)], sfs=False)
 
 
 # ----------------------------------------------------------------------------------------- process clause
